@@ -381,6 +381,11 @@ fn handle(line: &str) -> String {
             let p = unhex(h);
             with_cap!(*cap, run_encb, (&p))
         }
+        // rtx: round trip on a payload too large for the model (compared with the payload itself only)
+        ["rtx", cap, h] => {
+            let p = unhex(h);
+            with_cap!(*cap, run_rt, (cap, &p))
+        }
         ["rt", cap, h] => {
             let p = unhex(h);
             with_cap!(*cap, run_rt, (cap, &p))
@@ -391,6 +396,38 @@ fn handle(line: &str) -> String {
             with_cap!(*cap, run_encb, (&p))
         }
         ["alloclim", h] => run_alloclim(&unhex(h)),
+        // encu <hex a> <hex b>: the iterator encoder over a source that yields a, then None once, then b (not fused):
+        // the encoder must treat the first None as the end of the payload and never look at the source again
+        ["encu", a, b] => {
+            let (a, b) = (unhex(a), unhex(b));
+            let mut evs: Vec<Option<u8>> = a.iter().map(|x| Some(*x)).collect();
+            evs.push(None);
+            evs.extend(b.iter().map(|x| Some(*x)));
+            let mut pos = 0usize;
+            let src = std::iter::from_fn(move || {
+                let r = if pos < evs.len() { evs[pos] } else { None };
+                pos += 1;
+                r
+            });
+            let mut enc = sml_rs::transport::Encoder::new(src);
+            let mut out = Vec::new();
+            let lim = 5 * a.len() + 64;
+            let r = catch_unwind(AssertUnwindSafe(|| {
+                for _ in 0..lim {
+                    match enc.next() {
+                        Some(x) => out.push(x),
+                        None => break,
+                    }
+                }
+                let after: Vec<Option<u8>> = (0..3).map(|_| enc.next()).collect();
+                after.iter().all(|x| x.is_none())
+            }));
+            match r {
+                Ok(true) => hex(&out),
+                Ok(false) => format!("{}!more", hex(&out)),
+                Err(_) => "P".to_string(),
+            }
+        }
         ["enci", k, h] => run_enci(k.parse().unwrap(), &unhex(h)),
         ["fdecode", h] => run_fdecode(&unhex(h)),
         ["fstream", cap, k, h] => {
